@@ -110,6 +110,11 @@ func (f *Frame) callFn0(st *State, r *Term, callee *ssa.Function, bindings []Val
 			}
 		}
 	}
+	if fullName(target) == "slices.Clone" && len(args) == 1 {
+		if v, ok := f.modelSlicesClone(st, callee, args[0]); ok {
+			return v
+		}
+	}
 	if model, ok := externModels[fullName(target)]; ok {
 		return model(f, st, r, target, args, pos)
 	}
@@ -538,6 +543,38 @@ func (f *Frame) appendOp(st *State, r *Term, cc *ssa.CallCommon, pos token.Pos) 
 }
 
 func (f *Frame) assumeFrameSinceEntryNothing() {}
+
+// modelSlicesClone: slices.Clone(s) is `if s == nil { return nil }; return append(s[:0:0], s...)` (go1.21+):
+// nil for nil, a zero-capacity view of s for an empty s, otherwise a freshly allocated array holding the
+// elements of s. Nothing that existed is written.
+func (f *Frame) modelSlicesClone(st *State, callee *ssa.Function, arg Val) (Val, bool) {
+	src, ok := arg.(*Term)
+	if !ok || callee.Signature.Params().Len() != 1 {
+		return nil, false
+	}
+	sl, ok := f.subst(callee.Signature.Params().At(0).Type()).Underlying().(*types.Slice)
+	if !ok {
+		return nil, false
+	}
+	trust(f, "slices.Clone(s) is append(s[:0:0], s...) for a non-nil s and nil for nil (its go1.21+ source)")
+	es := f.sortOf(sl.Elem())
+	en := f.eName(sl.Elem())
+	E := f.ctx.comp(st, en, ArrS(SInt, ArrS(SInt, es)))
+	n := SlcLen(src)
+	sb, so := SlcBase(src), SlcOff(src)
+	nb := f.ctx.fresh("cl_base", SInt)
+	nc := f.ctx.fresh("cl_cap", SInt)
+	ne := f.ctx.fresh("cl_elems", ArrS(SInt, es))
+	f.ctx.assume(And(Ge(nb, st.alloc), Gt(nb, IntLit(0)), Ge(nc, n)))
+	j := Atom("j!cl", SInt)
+	f.ctx.assume(Forall([]*Term{j}, Implies(And(Le(IntLit(0), j), Lt(j, n)), Eq(Select(ne, Slot(IntLit(0), j)), Select(Select(E, sb), Slot(so, j)))), []*Term{Select(ne, Slot(IntLit(0), j))}))
+	nonEmpty := f.ctx.name("cl_nonempty", And(Neq(sb, IntLit(0)), Gt(n, IntLit(0))))
+	st.alloc = f.ctx.name("alloc", Ite(nonEmpty, Add(nb, IntLit(1)), st.alloc))
+	st.heap[en] = f.ctx.name("E", Ite(nonEmpty, Store(E, nb, ne), E))
+	fresh := MkSlice(nb, IntLit(0), n, nc)
+	empty := MkSlice(sb, so, IntLit(0), IntLit(0))
+	return f.ctx.name("clone", Ite(Eq(sb, IntLit(0)), src, Ite(Gt(n, IntLit(0)), fresh, empty))), true
+}
 
 func (f *Frame) isFresh(ref *Term) *Term {
 	if f.parentEntryOverride != nil {
